@@ -199,7 +199,11 @@ impl Engine for C17 {
         let n_prior = rng.usize(1, 2);
         for _ in 0..n_prior {
             // an earlier run may have used another writer path of the same command
+            let file_based = !matches!(sub, "cov" | "ctr");
             let psub = match sub {
+                // now and then the earlier run was a different command writing to
+                // the same output path (all of these write <location>/result)
+                _ if file_based && rng.chance(1, 5) => *rng.pick(&["oligo_mmap", "oligo_batch", "cgr", "kcgr", "s2m", "m2s"]),
                 "oligo_mmap" | "oligo_batch" if rng.chance(1, 2) => *rng.pick(&["oligo_mmap", "oligo_batch"]),
                 "cgr" | "kcgr" if rng.chance(1, 3) => *rng.pick(&["cgr", "kcgr"]),
                 "cov" | "ctr" if rng.chance(1, 3) => *rng.pick(&["cov", "ctr"]),
